@@ -177,11 +177,11 @@ def run(ctx):
             return r2.choice(rest)
         run_one(ctx, W, out, chs, sterms, 'sleep_random', sleepy=True)
     sbad = ctx.model_mismatches(SC.HEADER + '\nRequire Import V.Sched.Sleep.', [t[0] for t in sterms], 'check_scase',
-                                chunk=120, name='sleep')
+                                chunk=30, name='sleep')
     for k, i in enumerate(sbad):
         ctx.disagree(sterms[i][1], 'trace of the real controller with sleep()/wake_up()', '',
                      'C01 trace with sleep/wake_up: real Controller vs Sched.Sleep.sstep')
-    bad = ctx.model_mismatches(SC.HEADER, [t[0] for t in terms], 'check_case', chunk=120)
+    bad = ctx.model_mismatches(SC.HEADER, [t[0] for t in terms], 'check_case', chunk=40)
     for k, i in enumerate(bad):
         where = ctx.model_eval(SC.HEADER, 'let \'(W, fx, tbl, tr) := %s in check_trace W fx (outcome_of tbl) state0 tr 0' % terms[i][0]) if k < 3 else ''
         ctx.disagree(terms[i][1], 'trace of the real controller', 'first differing event index: ' + where[-200:],
